@@ -5,6 +5,11 @@ import tempfile
 import time
 import z3
 
+try:
+    z3.set_param("memory_max_size", 3000)          # MB per process: an exhausted solver answers unknown instead of being killed
+except Exception:          # pragma: no cover
+    pass
+
 VERDICTS = ("proved", "refuted", "undecided")
 
 
